@@ -65,48 +65,59 @@ theorem c17_single_writer_commute {S : Type u} {L : Type v} (R : S → S → Pro
 
 /-! ## The go-restli programs -/
 
-/-- the requests of a server with the REPAIRED error branch (copy before filling defaults) plus any
-number of adapter look-ups -/
-def repairedSys (C : Consts) (s : Shared) (reqs : List Req) (tys : List Nat) : Sys Shared Local :=
-  mkSys s (reqs.map (serveProg C true) ++ tys.map loadProg)
+/-- the requests of one server — `ServeHTTP` as it is in /repo now (`serveNow`: the switch between
+"stores the default message through the resource's pointer" and "completes a copy" is regenerated
+from handler.go on every check) — plus any number of adapter look-ups -/
+def serverSys (C : Consts) (s : Shared) (reqs : List Req) (tys : List Nat) : Sys Shared Local :=
+  mkSys s (reqs.map (serveNow C) ++ tys.map loadProg)
 
-/-- the same with the error branch as it is TODAY (`errRes.Message = …` stored through the pointer) -/
-def currentSys (C : Consts) (s : Shared) (reqs : List Req) (tys : List Nat) : Sys Shared Local :=
+/-- the same with the error branch as it was before /repo commit bf479cd
+(`errRes.Message = …` stored through the pointer): the regression the check must catch -/
+def storingSys (C : Consts) (s : Shared) (reqs : List Req) (tys : List Nat) : Sys Shared Local :=
   mkSys s (reqs.map (serveProg C false) ++ tys.map loadProg)
 
-/-- **Repaired server: requests do not interfere.** For any routing tree, registry, error objects
-(shared between requests or not, with or without `Message`/`Status`), any list of requests (any
-mix of successes, fresh errors, shared error objects, plain errors, panics, unknown resources and
-methods) and adapter look-ups, and EVERY schedule: the shared cells are unchanged, and every
-request that ran to completion has the outcome of its solo run. -/
-theorem c17_repaired_server_commutes (C : Consts) (s : Shared) (reqs : List Req) (tys : List Nat)
-    (sched : Schedule) :
-    (run (repairedSys C s reqs tys) sched).shared = s ∧
-    ∀ i t, (repairedSys C s reqs tys).threads[i]? = some t → t.todo.length ≤ sched.count i →
-      (run (repairedSys C s reqs tys) sched).threads[i]? = some (runAlone s t).2 := by
-  have hro : ∀ t ∈ (repairedSys C s reqs tys).threads, ∀ a ∈ t.todo,
-      ReadOnlyAt (repairedSys C s reqs tys).shared (fun _ => True) a := by
+/-- **The server: requests do not interfere.** For both module generations as they are in /repo now,
+any routing tree, registry, error objects (shared between requests or not, with or without
+`Message`/`Status`), any list of requests (any mix of successes, fresh errors, shared error objects,
+plain errors, panics, unknown resources and methods) and adapter look-ups, and EVERY schedule: the
+shared cells are unchanged, and every request that ran to completion has the outcome of its solo
+run. (Full strength since bf479cd; the proof reads `storesThroughPointer = false` off the
+regenerated table, so re-introducing the store breaks it.) -/
+theorem c17_server_commutes (C : Consts) (hC : C = constsV2 ∨ C = constsRoot) (s : Shared)
+    (reqs : List Req) (tys : List Nat) (sched : Schedule) :
+    (run (serverSys C s reqs tys) sched).shared = s ∧
+    ∀ i t, (serverSys C s reqs tys).threads[i]? = some t → t.todo.length ≤ sched.count i →
+      (run (serverSys C s reqs tys) sched).threads[i]? = some (runAlone s t).2 := by
+  have hflag : (!C.storesThroughPointer) = true := by
+    rcases hC with rfl | rfl <;> decide
+  have hro : ∀ t ∈ (serverSys C s reqs tys).threads, ∀ a ∈ t.todo,
+      ReadOnlyAt (serverSys C s reqs tys).shared (fun _ => True) a := by
     intro t ht a ha
     have hp := (mem_mkSys ht).2
     rcases List.mem_append.mp hp with hp | hp
     · obtain ⟨q, _, hq⟩ := List.mem_map.mp hp
-      exact (serveProg_fixed_blind C q a (hq ▸ ha)).readOnlyAt _
+      have ha' : a ∈ serveProg C true q := by
+        have := hq ▸ ha
+        simpa [serveNow, hflag] using this
+      exact (serveProg_fixed_blind C q a ha').readOnlyAt _
     · obtain ⟨ty, _, hq⟩ := List.mem_map.mp hp
       exact (loadProg_blind ty a (hq ▸ ha)).readOnlyAt _
   refine ⟨(c17_requests_commute _ _ (fun _ _ => trivial) hro sched).1, fun i t hi hd => ?_⟩
   exact (c17_requests_commute_complete _ _ (fun _ _ => trivial) hro sched i t hi hd).1
 
 /-- the two-request witness for F8: one error object `{Status: 404}` (no message) owned by the
-resource and returned to both requests -/
+resource and returned to both requests, served by the error branch that stores through the pointer -/
 def errCexSys : Sys Shared Local :=
-  currentSys constsV2 ⟨[(1, [1])], [], [⟨some 404, none⟩], [], 0⟩
+  storingSys constsV2 ⟨[(1, [1])], [], [⟨some 404, none⟩], [], 0⟩
     [⟨1, 1, 10, 20, .errShared 0⟩, ⟨1, 1, 11, 21, .errShared 0⟩] []
 
 /-- both requests test `errRes.Message == nil` before either stores -/
 def errCexSched : Schedule := [0, 0, 0, 0, 0, 1, 1, 1, 1, 1, 0, 1, 0, 0, 1, 1]
 
-/-- **Today's error branch writes a shared cell (F8).** The conclusion of `c17_requests_commute`
-("shared cells unchanged") is false for the current code on a two-request witness. -/
+/-- **An error branch that stores through the resource's pointer writes a shared cell (F8; in /repo
+until bf479cd).** The conclusion of `c17_requests_commute` ("shared cells unchanged") is false for
+that program on a two-request witness: the read-only premise cannot be dropped, and the check's
+seeded regression (re-introducing `errRes.Message = …`) is a genuine violation. -/
 theorem c17_shared_error_object_cex :
     ¬ ∀ sched, (run errCexSys sched).shared = errCexSys.shared := by
   intro h
@@ -119,39 +130,11 @@ theorem c17_shared_error_object_double_write :
     (run errCexSys errCexSched).shared.errs = [⟨some 404, some (.statusText 404)⟩] := by
   decide
 
-/-- **Today's server, guarded.** If every error object that resource code shares between requests
-already carries a `Message` (decidable guard `ErrFilled`), today's error branch never stores through
-a shared pointer, and the full conclusion holds: for every schedule the shared cells are unchanged
-and every completed request has its solo outcome. -/
-theorem c17_error_object_partial (C : Consts) (s : Shared) (hf : ErrFilled s) (reqs : List Req)
-    (tys : List Nat) (sched : Schedule) :
-    (run (currentSys C s reqs tys) sched).shared = s ∧
-    ∀ i t, (currentSys C s reqs tys).threads[i]? = some t → t.todo.length ≤ sched.count i →
-      (run (currentSys C s reqs tys) sched).threads[i]? = some (runAlone s t).2 := by
-  have hI : ∀ t ∈ (currentSys C s reqs tys).threads, FillLocal t.loc := by
-    intro t ht; rw [(mem_mkSys ht).1]; exact fillLocal_init
-  have hro : ∀ t ∈ (currentSys C s reqs tys).threads, ∀ a ∈ t.todo,
-      ReadOnlyAt (currentSys C s reqs tys).shared FillLocal a := by
-    intro t ht a ha
-    have hp := (mem_mkSys ht).2
-    rcases List.mem_append.mp hp with hp | hp
-    · obtain ⟨q, _, hq⟩ := List.mem_map.mp hp
-      exact serveProg_current_ro C q hf a (hq ▸ ha)
-    · obtain ⟨ty, _, hq⟩ := List.mem_map.mp hp
-      have hb := loadProg_blind ty a (hq ▸ ha)
-      exact fun l hl => ⟨hb.1 _ l, by
-        have : a = aLoadAdapter ty := by
-          have := hq ▸ ha
-          simpa [loadProg] using this
-        subst this; exact hl⟩
-  refine ⟨(c17_requests_commute _ _ hI hro sched).1, fun i t hi hd => ?_⟩
-  exact (c17_requests_commute_complete _ _ hI hro sched i t hi hd).1
-
 /-! ### the random source of the D2 resolver -/
 
 /-- two concurrent `ResolveHostnameAndContextForQuery` calls on a snapshot with two hosts of weight 1 -/
 def rngCexSys : Sys Shared Local :=
-  mkSys ⟨[], [], [], [(7, 1), (8, 1)], 0⟩ [resolveProg false, resolveProg false]
+  mkSys ⟨[], [], [], [(7, 1), (8, 1)], 0⟩ [resolveNow constsV2, resolveNow constsV2]
 
 /-- both calls read the generator state before either writes it back -/
 def rngCexSched : Schedule := [0, 0, 1, 1, 0, 1, 0, 1]
@@ -167,16 +150,19 @@ def SerialEquivalent2 (sys : Sys Shared Local) (sched : Schedule) : Prop :=
 instance (sys : Sys Shared Local) (sched : Schedule) : Decidable (SerialEquivalent2 sys sched) := by
   unfold SerialEquivalent2; exact inferInstance
 
-/-- **Today's random source loses updates (F16).** `rng.Float64()` without a lock is a read and a
-write with a gap between them; there is a complete schedule of two resolver calls whose result — both
-calls receive the same draw, the generator advances once — is the result of NO serial execution. -/
+/-- **Today's random source loses updates (F16).** The resolver as it is in /repo now
+(`resolveNow`: `rngUnlocked = true` is read off the regenerated table, so this witness stops building
+the day the draw is put under a lock — it is then to be retired with the guard of `c17_rng_partial`):
+`rng.Float64()` without a lock is a read and a write with a gap between them; there is a complete
+schedule of two resolver calls whose result — both calls receive the same draw, the generator
+advances once — is the result of NO serial execution. -/
 theorem c17_rng_lost_update_cex :
     ¬ ∀ sched, 4 ≤ sched.count 0 → 4 ≤ sched.count 1 → SerialEquivalent2 rngCexSys sched := by
   intro h
   exact absurd (h rngCexSched (by decide) (by decide)) (by decide)
 
-/-- a system with ONE resolver call (thread 0, today's unlocked code) next to any number of
-repaired-server requests and adapter look-ups -/
+/-- a system with ONE resolver call (thread 0; today's unlocked code) next to any number of server
+requests (copying error branch) and adapter look-ups -/
 def oneResolverSys (C : Consts) (s : Shared) (reqs : List Req) (tys : List Nat) : Sys Shared Local :=
   mkSys s (resolveProg false :: (reqs.map (serveProg C true) ++ tys.map loadProg))
 
@@ -232,12 +218,12 @@ def demoReqs : List Req :=
 /-- a round-robin schedule over the seven requests and the adapter look-up -/
 def demoSched : Schedule := (List.replicate 9 [7, 0, 6, 1, 5, 2, 4, 3]).flatten
 
-/-- the repaired system under a genuinely interleaved schedule: seven different outcomes (200 with
+/-- today's server under a genuinely interleaved schedule: seven different outcomes (200 with
 the request's own key and parameter, 404 from the shared object with the message filled in a copy,
 500 from the panic, plain 404, 400, 500 from the status-less shared object, 500), the registered
 adapter found — and the shared objects untouched. -/
 example :
-    (outcomes (run (repairedSys constsV2 demoShared demoReqs [5]) demoSched)).map
+    (outcomes (run (serverSys constsV2 demoShared demoReqs [5]) demoSched)).map
         (fun l => (l.notFound, l.status, l.errHeader, l.body, l.adapter)) =
       [(false, 200, false, .entity 100 10 20, none),
        (false, 404, true, .error (some 404) (some (.statusText 404)), none),
@@ -247,21 +233,17 @@ example :
        (false, 500, true, .error none (some (.statusText 500)), none),
        (false, 500, true, .error (some 500) (some (.custom 1)), none),
        (false, 0, false, .none, some (some 50))] ∧
-    (run (repairedSys constsV2 demoShared demoReqs [5]) demoSched).shared = demoShared := by
+    (run (serverSys constsV2 demoShared demoReqs [5]) demoSched).shared = demoShared := by
   decide +kernel
 
-/-- the same requests through TODAY's code: the shared object is changed, and the request that got
-the status-less object crashes outside `recover` (F8's other half) -/
+/-- the same requests through the storing error branch (before bf479cd): the shared object is
+changed, and the request that got the status-less object crashes outside `recover` (F8's other half) -/
 example :
-    (run (currentSys constsV2 demoShared demoReqs [5]) demoSched).shared.errs =
+    (run (storingSys constsV2 demoShared demoReqs [5]) demoSched).shared.errs =
         [⟨some 404, some (.statusText 404)⟩, ⟨none, none⟩] ∧
-    (outcomes (run (currentSys constsV2 demoShared demoReqs [5]) demoSched)).map (·.crashed) =
+    (outcomes (run (storingSys constsV2 demoShared demoReqs [5]) demoSched)).map (·.crashed) =
         [false, false, false, false, false, true, false, false] := by
   decide +kernel
-
-/-- the guard of `c17_error_object_partial` is satisfiable by a state with shared error objects -/
-example : ErrFilled ⟨[(1, [1])], [], [⟨some 404, some (.custom 9)⟩, ⟨none, some (.custom 8)⟩], [], 0⟩ := by
-  decide
 
 /-- the lost update, spelled out: both calls draw 0 and choose host 7, the generator stands at 1;
 serially the draws are 0 and 1, the hosts 7 and 8, the generator stands at 2 -/
